@@ -120,4 +120,18 @@ CHECKS["C04"] = dict(
              "exactness of extremal runs); default 30-bit primes only.",
 )
 
+CHECKS["C03"] = dict(
+        src="checks/c03.cpp", cfg="rel", link="static", engine="A-case-explorer + D-envelope-model",
+        category="exploration", design_ref="DESIGN.md section 4, C03",
+        technique="envelope model (all sizes, primes, stages) + table facts + exhaustive basis-vector enumeration of the real transform + extremal concrete runs + module-level shape enumeration",
+        text="(1) the envelope model shows that no lane wraps for any 64-bit content, for every n = 2^0..2^16, both directions; (2) every twiddle "
+             "word and reduction constant is checked, so each stage is linear modulo each prime; (3) EVERY basis vector of every n up to the "
+             "tier bound is pushed through the real forward transform (and every unit vector through the inverse) and compared with "
+             "omega^(e_j i), the exponents e_j being read off the image of X and required to be all odd residues mod 2n; (4) round trip, "
+             "additivity and pointwise-product = negacyclic convolution are run on extremal lane patterns; (5) module-level dft -> idft / "
+             "idft_tmp_a returns exactly the original int64 coefficients (incl. INT64_MIN/MAX) for all size/stride combinations of the box.",
+        note="Linearity lets a complete basis decide the map on all inputs once wrap-freedom is certified by the model (hand-written "
+             "transfer functions, bound to the code in C04); basis enumeration bounded by the tier (n <= 4096 quick, all n thorough).",
+)
+
 NOT_YET = {}
